@@ -173,7 +173,7 @@ def tokens(src: str):
     try:
         return [t for t in tokenize.generate_tokens(io.StringIO(src).readline)
                 if t.type not in (tokenize.ENDMARKER,)]
-    except (tokenize.TokenError, SyntaxError, IndentationError):
+    except (tokenize.TokenError, SyntaxError, IndentationError, SystemError):  # SystemError: CPython 3.12.1's tokenizer on some nested f-strings
         return None
 
 
